@@ -11,26 +11,46 @@ from vcore import (Undecided, Work, build_harness, run_tlc, tlc_stats, tlc_faile
 
 DEVS = '{"RgPt", "BwRev", "BwOrigin", "WrapSlice"}'
 
-# which programs a property owns, and which verdicts of those programs it judges
-PROPS = {
-    "C02": dict(rounds_family=[("edit", ["insert", "embed"])],
-                owns=lambda kind, op, rule: op in ("insert", "embed") and rule not in ("order", "extract")),
-    "C03": dict(rounds_family=[("edit", ["delete", "erase", "slice"])],
-                owns=lambda kind, op, rule: op in ("delete", "erase", "slice") and rule not in ("order", "extract")),
-    "C04": dict(rounds_family=[("edit", ["rotate"]), ("rot2", [])],
-                owns=lambda kind, op, rule: rule not in ("order", "extract")),
-    "C05": dict(rounds_family=[("edit", ["reverse", "complement", "revcomp"])],
-                owns=lambda kind, op, rule: rule != "order"),
-    "C10": dict(rounds_family=[("edit", ["insert", "embed"]), ("cuts", [])],
-                owns=lambda kind, op, rule: rule not in ("order", "extract") and
-                (kind == "cuts" or op in ("delete", "law"))),
-}
+# which programs a property owns, which verdicts of those programs it judges,
+# and the rounds per tier: (family, kinds, host lengths, stride, design-checked?)
+# stride 1 = the stated finite space is enumerated completely; stride k = a
+# seeded 1/k sample of it (offset = VERIF_SEED mod k).
+def R(family, kinds, Ls, stride, mc=True):
+    return dict(family=family, kinds=kinds, Ls=Ls, stride=stride, mc=mc)
 
-# (Ls, stride) per tier; stride 1 = exhaustive, otherwise a seeded sample
-TIERS = {
-    "quick": [dict(Ls=[4], stride=1, mc=True), dict(Ls=[5], stride=9, mc=False)],
-    "thorough": [dict(Ls=[3, 4], stride=1, mc=True), dict(Ls=[5], stride=1, mc=True),
-                 dict(Ls=[6], stride=5, mc=False)],
+
+PROPS = {
+    "C02": dict(
+        owns=lambda kind, op, rule: op in ("insert", "embed") and rule not in ("order", "extract"),
+        tiers={"quick": [R("edit", ["insert", "embed"], [4], 1), R("edit", ["insert", "embed"], [5], 9, False)],
+               "thorough": [R("edit", ["insert", "embed"], [3, 4], 1), R("edit", ["insert", "embed"], [5], 1),
+                            R("edit", ["insert", "embed"], [6], 4, False)]}),
+    "C03": dict(
+        owns=lambda kind, op, rule: op in ("delete", "erase", "slice") and rule not in ("order", "extract"),
+        tiers={"quick": [R("edit", ["delete", "erase", "slice"], [4], 1),
+                         R("edit", ["delete", "erase", "slice"], [5], 15, False)],
+               "thorough": [R("edit", ["delete", "erase", "slice"], [3, 4], 1),
+                            R("edit", ["delete", "erase", "slice"], [5], 1),
+                            R("edit", ["delete", "erase", "slice"], [6], 6, False)]}),
+    "C04": dict(
+        owns=lambda kind, op, rule: rule not in ("order", "extract"),
+        tiers={"quick": [R("edit", ["rotate"], [4], 1), R("rot2", [], [4], 7), R("edit", ["rotate"], [5], 9, False)],
+               "thorough": [R("edit", ["rotate"], [3, 4, 5], 1), R("rot2", [], [3, 4], 1), R("rot2", [], [5], 6, False),
+                            R("edit", ["rotate"], [6], 4, False)]}),
+    "C05": dict(
+        owns=lambda kind, op, rule: rule != "order",
+        tiers={"quick": [R("edit", ["reverse", "complement", "revcomp"], [4, 5], 1),
+                         R("edit", ["reverse", "complement", "revcomp"], [6], 3, False)],
+               "thorough": [R("edit", ["reverse", "complement", "revcomp"], [3, 4, 5], 1),
+                            R("edit", ["reverse", "complement", "revcomp"], [6], 1),
+                            R("edit", ["reverse", "complement", "revcomp"], [7], 1, False)]}),
+    "C10": dict(
+        owns=lambda kind, op, rule: rule not in ("order", "extract") and (kind == "cuts" or op in ("delete", "law")),
+        tiers={"quick": [R("edit", ["insert", "embed"], [4], 1), R("cuts", [], [4, 5], 1),
+                         R("edit", ["insert", "embed"], [5], 9, False)],
+               "thorough": [R("edit", ["insert", "embed"], [3, 4], 1), R("edit", ["insert", "embed"], [5], 1),
+                            R("cuts", [], [3, 4, 5], 1), R("cuts", [], [6], 2, False),
+                            R("edit", ["insert", "embed"], [6], 4, False)]}),
 }
 
 
@@ -108,8 +128,8 @@ def run(prop, tier, seed, replay=None):
         samples = []
         case_files = []
         bounds = []
-        for rnd in TIERS[tier]:
-            for family, kinds in conf["rounds_family"]:
+        for rnd in conf["tiers"][tier]:
+            for family, kinds in [(rnd["family"], rnd["kinds"])]:
                 stride = rnd["stride"]
                 offset = seed % stride if stride > 1 else 0
                 if rnd["mc"]:
